@@ -12,6 +12,13 @@
 // canonical presentation of the same logical trace (all spans JSON batch, logical order), for every
 // sampler configuration in `samplers()`.
 //
+// Batching: one collector instance (one "job") receives presentation number b of EVERY logical trace at
+// once, each trace under its own trace ID, which depends on the logical trace only (so the reference
+// presentation b=0 and every variant of a logical trace use the same ID; the deterministic sampler sees the
+// same hash). Spans that arrive p-th in their trace are sent before any span that arrives (p+1)-th; within
+// one position, spans that share a path travel in one request. Traces are independent inside the collector
+// (the only shared state, dynsampler counts, cannot change a rate within a run: ClearFrequency 24 h).
+//
 // No expected value is hand-written: the statement is an equivalence, so the oracle is the equivalence.
 // The random draw is owned by configuration: every rule keeps with SampleRate 1 or drops with Drop, the
 // dynamic samplers run at goal rate 1 with a 24 h clear frequency (so no rate is ever recomputed in a run),
@@ -21,6 +28,8 @@ package main
 import (
 	"encoding/hex"
 	"fmt"
+	"os"
+	"runtime/pprof"
 	"sort"
 	"strings"
 	"sync"
@@ -190,10 +199,9 @@ func wireValue(v lval, e enc) codec.Value {
 // sampler configurations (one dataset each; the dataset selects the sampler)
 
 type samplerDef struct {
-	Name    string
-	Class   string
-	TraceID int // index into traceIDs
-	Choice  func() *config.V2SamplerChoice
+	Name   string
+	Class  string
+	Choice func() *config.V2SamplerChoice
 }
 
 func cond(field, op string, value any, datatype string) *config.RulesBasedSamplerCondition {
@@ -224,7 +232,6 @@ func samplers() []samplerDef {
 	add := func(name, class string, c func() *config.V2SamplerChoice) {
 		out = append(out, samplerDef{Name: name, Class: class, Choice: c})
 	}
-	opName := map[string]string{"=": "eq", "!=": "ne", "<": "lt", ">=": "ge", "in": "in"}
 	// untyped / int-typed / float-typed comparisons on the numeric field, values as YAML would deliver them
 	for _, dt := range []string{"", "int", "float"} {
 		tn := dt
@@ -237,7 +244,6 @@ func samplers() []samplerDef {
 		add("rules-"+tn+"-ge-1.5", "rules/"+tn, ruleSampler("", cond("n", ">=", 1.5, dt)))
 		add("rules-"+tn+"-in-200,-1,1.5", "rules/"+tn, ruleSampler("", cond("n", "in", []any{200, -1, 1.5}, dt)))
 	}
-	_ = opName
 	add("rules-untyped-span-scope-ge1.5-and-lt200", "rules/untyped", ruleSampler("span", cond("n", ">=", 1.5, ""), cond("n", "<", 200, "")))
 	add("rules-untyped-root-eq-200", "rules/untyped", ruleSampler("", cond("root.n", "=", 200, "")))
 	add("rules-float-root-ge-1.5", "rules/float", ruleSampler("", cond("root.n", ">=", 1.5, "float")))
@@ -250,16 +256,13 @@ func samplers() []samplerDef {
 	})
 	add("dynamic-n", "dynamic", func() *config.V2SamplerChoice { return &config.V2SamplerChoice{DynamicSampler: dyn(false, "n")} })
 	add("dynamic-root.n-tracelength", "dynamic", func() *config.V2SamplerChoice { return &config.V2SamplerChoice{DynamicSampler: dyn(true, "root.n")} })
-	for i := 0; i < 2; i++ {
-		out = append(out, samplerDef{Name: fmt.Sprintf("deterministic-2/id%d", i), Class: "deterministic", TraceID: i,
-			Choice: func() *config.V2SamplerChoice {
-				return &config.V2SamplerChoice{DeterministicSampler: &config.DeterministicSamplerConfig{SampleRate: 2}}
-			}})
-	}
+	add("deterministic-2", "deterministic", func() *config.V2SamplerChoice {
+		return &config.V2SamplerChoice{DeterministicSampler: &config.DeterministicSamplerConfig{SampleRate: 2}}
+	})
 	return out
 }
 
-func dataset(s samplerDef) string { return "ds-" + strings.SplitN(s.Name, "/", 2)[0] }
+func dataset(s samplerDef) string { return "ds-" + s.Name }
 
 func newConfig(defs []samplerDef) *config.MockConfig {
 	cfg := pipeline.DefaultConfig()
@@ -286,9 +289,9 @@ type worker struct {
 
 func newWorker(defs []samplerDef) *worker {
 	w := &worker{}
-	w.a = pipeline.New(pipeline.Options{Config: newConfig(defs), Self: addrA, Peers: []string{addrB},
+	w.a = pipeline.New(pipeline.Options{Config: newConfig(defs), Self: addrA, Peers: []string{addrB}, MaxBatchSize: 1024,
 		Collector: func(n *pipeline.Node) collect.Collector { w.rc = nodecoll.New(n); return w.rc }})
-	w.b = pipeline.New(pipeline.Options{Config: newConfig(defs), Self: addrB, Peers: []string{addrA}})
+	w.b = pipeline.New(pipeline.Options{Config: newConfig(defs), Self: addrB, Peers: []string{addrA}, MaxBatchSize: 1024})
 	w.b.LinkPeer(addrA, w.a)
 	return w
 }
@@ -299,11 +302,45 @@ func (w *worker) close() {
 	w.b.Close()
 }
 
-// logical trace presentation
+
+// presentation of one logical trace
 type presentation struct {
 	Vals    []int // value index per span (span 0 = root)
 	Arrival []int // Arrival[p] = index of the span that arrives p-th
 	Encs    []enc // per span
+}
+
+type item struct {
+	trace   int // index of the logical trace
+	slot    int // which of the trace's IDs (presentation ordinal mod pool size)
+	b       int // presentation ordinal
+	traceID string
+	p       presentation
+	wire    [][]byte // per span: the bytes this span contributes to a request on its path (see spanWire)
+}
+
+// spanWire renders one span for its path once (the bytes depend only on trace ID, span and encoding, and
+// are reused by every job): for the batch paths the batch MEMBER (codec.Batch of one event without the
+// array framing), for the single-event paths the request body. OTLP spans are built per request.
+func spanWire(it item, si int) []byte {
+	e := it.p.Encs[si]
+	evt := codec.Event{Data: spanFields(it, si)}
+	switch e.Path {
+	case "json-batch":
+		b := codec.JSONBatch(evt)
+		return b[1 : len(b)-1] // strip [ ]
+	case "msgpack-batch":
+		b := codec.MsgpackBatch("", evt)
+		if b[0] != 0x91 {
+			panic("codec.MsgpackBatch of one event does not start with fixarray(1)")
+		}
+		return b[1:]
+	case "json-event":
+		return evt.JSONObject()
+	case "msgpack-event":
+		return evt.MsgpackObject()
+	}
+	return nil
 }
 
 type outcome struct {
@@ -319,108 +356,210 @@ func (o outcome) String() string {
 
 var t0 = time.Date(2024, 3, 1, 11, 0, 0, 0, time.UTC)
 
-// run presents the trace to the node pair and returns the sampler's answer. problem != "" = the harness
-// could not get the spans into the collector (never a property verdict).
-func (w *worker) run(s samplerDef, traceID string, p presentation) (o outcome, problem string) {
+var pathOrder = []string{"json-batch", "msgpack-batch", "json-event", "msgpack-event", "otlp-http-proto", "otlp-http-json", "otlp-grpc"}
+
+const rootSpanID = "0102030405060701"
+
+func spanFields(it item, si int) []codec.Field {
+	v, e := values[it.p.Vals[si]], it.p.Encs[si]
+	fields := []codec.Field{codec.F("trace.trace_id", codec.Str(it.traceID))}
+	if si != 0 {
+		fields = append(fields, codec.F("trace.parent_id", codec.Str(rootSpanID)))
+	}
+	return append(fields, codec.F("n", wireValue(v, e)), codec.F("sid", codec.Str(fmt.Sprintf("s%d", si))))
+}
+
+func otlpSpan(it item, si int) codec.OTLPSpan {
+	idb, err := hex.DecodeString(it.traceID)
+	if err != nil || len(idb) != 16 {
+		panic("trace ID is not 32 hex digits")
+	}
+	sp := codec.OTLPSpan{TraceID: idb, SpanID: []byte{1, 2, 3, 4, 5, 6, 7, byte(si + 1)}, Name: "op", Start: t0, End: t0.Add(time.Millisecond),
+		Attrs: []codec.Field{codec.F("n", wireValue(values[it.p.Vals[si]], enc{})), codec.F("sid", codec.Str(fmt.Sprintf("s%d", si)))}}
+	if si != 0 {
+		sp.ParentSpanID = []byte{1, 2, 3, 4, 5, 6, 7, 1}
+	}
+	return sp
+}
+
+// runJob presents all items (distinct trace IDs) to one fresh collector and returns the sampler's answer
+// per item. problem != "" = the harness could not get the spans into the collector (never a verdict).
+func (w *worker) runJob(s samplerDef, items []item) (out []outcome, problem string) {
 	w.rc.Reset()
 	ds := dataset(s)
-	for _, si := range p.Arrival {
-		v, e := values[p.Vals[si]], p.Encs[si]
-		node := w.a
-		if e.ViaPeer {
-			node = w.b
+	usedPeer := false
+	want := 0
+	for pos := 0; pos < 3; pos++ {
+		type group struct {
+			path string
+			peer bool
 		}
-		var status int
-		switch {
-		case strings.HasPrefix(e.Path, "otlp"):
-			idb, _ := hex.DecodeString(traceID)
-			sp := codec.OTLPSpan{TraceID: idb, SpanID: []byte{1, 2, 3, 4, 5, 6, 7, byte(si + 1)}, Name: "op", Start: t0, End: t0.Add(time.Millisecond),
-				Attrs: []codec.Field{codec.F("n", wireValue(v, enc{})), codec.F("sid", codec.Str(fmt.Sprintf("s%d", si)))}}
-			if si != 0 {
-				sp.ParentSpanID = []byte{1, 2, 3, 4, 5, 6, 7, 1}
+		groups := map[group][]int{} // -> item indices (in item order)
+		for ii, it := range items {
+			if pos < len(it.p.Arrival) {
+				e := it.p.Encs[it.p.Arrival[pos]]
+				g := group{e.Path, e.ViaPeer}
+				groups[g] = append(groups[g], ii)
+				want++
 			}
-			msg := codec.OTLPTraceMessage([]codec.Field{codec.F("service.name", codec.Str("svc"))}, sp)
-			switch e.Path {
-			case "otlp-http-proto":
-				status = node.Do(pipeline.Incoming, codec.OTLPHTTP("/v1/traces", apiKey, ds, codec.CTProto, msg)).Status
-			case "otlp-http-json":
-				status = node.Do(pipeline.Incoming, codec.OTLPHTTP("/v1/traces", apiKey, ds, codec.CTJSON, msg)).Status
-			default:
-				status = 200
-				if _, err := node.GRPCTraceExport(pipeline.Incoming, map[string]string{"x-honeycomb-team": apiKey, "x-honeycomb-dataset": ds}, codec.OTLPProto(msg)); err != nil {
-					return o, "otlp-grpc export: " + err.Error()
+		}
+		for _, peer := range []bool{false, true} {
+			node := w.a
+			if peer {
+				node = w.b
+			}
+			sent := false
+			for _, path := range pathOrder {
+				idxs := groups[group{path, peer}]
+				if len(idxs) == 0 {
+					continue
+				}
+				sent = true
+				switch path {
+				case "json-batch", "msgpack-batch":
+					ct := codec.CTJSON
+					if path == "msgpack-batch" {
+						ct = codec.CTMsgpack
+					}
+					// = codec.Batch(ds, apiKey, ct, events...): array framing around the pre-rendered members
+					req := codec.Batch(ds, apiKey, ct)
+					var body []byte
+					if ct == codec.CTMsgpack {
+						body = codec.AppendArrayHeader(nil, len(idxs), 0)
+					} else {
+						body = []byte{'['}
+					}
+					for k, ii := range idxs {
+						if k > 0 && ct == codec.CTJSON {
+							body = append(body, ',')
+						}
+						body = append(body, items[ii].wire[items[ii].p.Arrival[pos]]...)
+					}
+					if ct == codec.CTJSON {
+						body = append(body, ']')
+					}
+					req.Body = body
+					resp := node.Do(pipeline.Incoming, req)
+					st := resp.BatchStatuses()
+					if resp.Status != 200 || len(st) != len(idxs) {
+						return nil, fmt.Sprintf("%s: HTTP %d %s", path, resp.Status, trunc(string(resp.Body), 200))
+					}
+					for _, x := range st {
+						if x != 202 {
+							return nil, fmt.Sprintf("%s: batch answer %s", path, trunc(string(resp.Body), 200))
+						}
+					}
+				case "json-event", "msgpack-event":
+					ct := codec.CTJSON
+					if path == "msgpack-event" {
+						ct = codec.CTMsgpack
+					}
+					req := codec.SingleEvent(ds, apiKey, ct, codec.Event{Data: []codec.Field{codec.F("x", codec.Nil())}})
+					for _, ii := range idxs {
+						req.Body = items[ii].wire[items[ii].p.Arrival[pos]]
+						resp := node.Do(pipeline.Incoming, req)
+						if resp.Status != 200 {
+							return nil, fmt.Sprintf("%s: HTTP %d %s", path, resp.Status, trunc(string(resp.Body), 200))
+						}
+					}
+				default:
+					spans := make([]codec.OTLPSpan, len(idxs))
+					for k, ii := range idxs {
+						spans[k] = otlpSpan(items[ii], items[ii].p.Arrival[pos])
+					}
+					msg := codec.OTLPTraceMessage([]codec.Field{codec.F("service.name", codec.Str("svc"))}, spans...)
+					switch path {
+					case "otlp-http-proto", "otlp-http-json":
+						ct := codec.CTProto
+						if path == "otlp-http-json" {
+							ct = codec.CTJSON
+						}
+						if resp := node.Do(pipeline.Incoming, codec.OTLPHTTP("/v1/traces", apiKey, ds, ct, msg)); resp.Status != 200 {
+							return nil, fmt.Sprintf("%s: HTTP %d %s", path, resp.Status, trunc(string(resp.Body), 200))
+						}
+					default:
+						if _, err := node.GRPCTraceExport(pipeline.Incoming, map[string]string{"x-honeycomb-team": apiKey, "x-honeycomb-dataset": ds}, codec.OTLPProto(msg)); err != nil {
+							return nil, "otlp-grpc export: " + err.Error()
+						}
+					}
 				}
 			}
-		default:
-			fields := []codec.Field{codec.F("trace.trace_id", codec.Str(traceID))}
-			if si != 0 {
-				fields = append(fields, codec.F("trace.parent_id", codec.Str("0102030405060701")))
-			}
-			fields = append(fields, codec.F("n", wireValue(v, e)), codec.F("sid", codec.Str(fmt.Sprintf("s%d", si))))
-			evt := codec.Event{Data: fields}
-			var req codec.Request
-			switch e.Path {
-			case "json-batch":
-				req = codec.Batch(ds, apiKey, codec.CTJSON, evt)
-			case "json-event":
-				req = codec.SingleEvent(ds, apiKey, codec.CTJSON, evt)
-			case "msgpack-batch":
-				req = codec.Batch(ds, apiKey, codec.CTMsgpack, evt)
-			case "msgpack-event":
-				req = codec.SingleEvent(ds, apiKey, codec.CTMsgpack, evt)
-			default:
-				return o, "unknown path " + e.Path
-			}
-			resp := node.Do(pipeline.Incoming, req)
-			status = resp.Status
-			if st := resp.BatchStatuses(); strings.HasSuffix(e.Path, "-batch") && (len(st) != 1 || st[0] != 202) {
-				return o, fmt.Sprintf("%s: batch answer %s", e, string(resp.Body))
+			if peer && sent {
+				usedPeer = true
+				w.b.PeerTx.Flush() // the real peer transmission puts the spans on the wire; MemNet serves them to A's peer listener
 			}
 		}
-		if status != 200 {
-			return o, fmt.Sprintf("%s: HTTP %d", e, status)
-		}
-		if e.ViaPeer {
-			w.b.PeerTx.Flush() // the real peer transmission puts the span on the wire; MemNet serves it to A's peer listener
+		if len(w.rc.Arrivals) != want {
+			return nil, fmt.Sprintf("after arrival position %d: %d of %d spans reached the owner's collector", pos, len(w.rc.Arrivals), want)
 		}
 	}
-	if len(w.rc.Arrivals) != len(p.Arrival) {
-		return o, fmt.Sprintf("%d of %d spans reached the owner's collector", len(w.rc.Arrivals), len(p.Arrival))
+	if usedPeer {
+		if pr := w.b.DecodeProblems(); len(pr) > 0 {
+			return nil, "peer forward undecodable: " + pr[0]
+		}
+		w.b.Net.Reset()
 	}
-	for i, sp := range w.rc.Arrivals {
-		if sp.TraceID != traceID || sp.IsRoot != (p.Arrival[i] == 0) || sp.Dataset != ds {
-			return o, fmt.Sprintf("span %d arrived as trace=%q root=%v dataset=%q", p.Arrival[i], sp.TraceID, sp.IsRoot, sp.Dataset)
+	// every span arrived under its trace ID, in the intended order, with the intended root flag
+	seen := map[string]int{}
+	byID := map[string]int{}
+	for ii, it := range items {
+		byID[it.traceID] = ii
+	}
+	for _, sp := range w.rc.Arrivals {
+		ii, ok := byID[sp.TraceID]
+		if !ok {
+			return nil, fmt.Sprintf("a span arrived under unknown trace ID %q", sp.TraceID)
+		}
+		pos := seen[sp.TraceID]
+		seen[sp.TraceID]++
+		arr := items[ii].p.Arrival
+		if pos >= len(arr) || sp.IsRoot != (arr[pos] == 0) || sp.Dataset != ds {
+			return nil, fmt.Sprintf("trace %s: span #%d arrived as root=%v dataset=%q", sp.TraceID, pos, sp.IsRoot, sp.Dataset)
 		}
 	}
-	ds2 := w.rc.Decide()
-	w.rc.Send()
-	w.a.Reset()
-	w.b.Reset()
-	if len(ds2) != 1 || ds2[0].TraceID != traceID {
-		return o, fmt.Sprintf("expected one decision for %s, got %v", traceID, ds2)
+	// The kept traces stay on the collector's outgoing queue and are discarded with the collector at the
+	// next Reset: what is transmitted afterwards is C01/C02/C20's subject, and not sending keeps node A's
+	// transmissions empty (no flush needed between jobs).
+	dec := w.rc.Decide()
+	if len(dec) != len(items) {
+		return nil, fmt.Sprintf("%d decisions for %d traces", len(dec), len(items))
 	}
-	if ds2[0].Selector != ds {
-		return o, fmt.Sprintf("decided by sampler %q, expected %q", ds2[0].Selector, ds)
+	out = make([]outcome, len(items))
+	for _, d := range dec {
+		ii, ok := byID[d.TraceID]
+		if !ok || d.Selector != ds {
+			return nil, fmt.Sprintf("decision for trace %q by sampler %q (expected %q)", d.TraceID, d.Selector, ds)
+		}
+		out[ii] = outcome{Keep: d.Keep, Rate: d.Rate, Key: d.SampleKey, Reason: d.Reason}
 	}
-	return outcome{Keep: ds2[0].Keep, Rate: ds2[0].Rate, Key: ds2[0].SampleKey, Reason: ds2[0].Reason}, ""
+	return out, ""
+}
+
+func trunc(s string, n int) string {
+	if len(s) > n {
+		return s[:n] + "…"
+	}
+	return s
 }
 
 // ---------------------------------------------------------------------------------------------
 
-type caseT struct {
-	trace   int // index into traces
-	arrival int // index into enumx.Perms(k)
-	encs    [3]uint8
-}
-
-type found struct {
-	order int64
-	what  string
-	rep   any
+type failing struct {
+	order   int64
+	items   []string // class: non-canonical "<value>@<family>" items (+ "arrival-order"), sorted
+	comps   string
+	sampler int
+	what    string
+	rep     map[string]any
 }
 
 func main() {
 	r := ev.New("C09", "exploration")
+		if pf := os.Getenv("VERIF_PROF"); pf != "" { // development aid: CPU profile of the enumeration
+		f, _ := os.Create(pf)
+		pprof.StartCPUProfile(f)
+		defer pprof.StopCPUProfile()
+	}
 	defs := samplers()
 	workers := 16
 	pool := make(chan *worker, workers)
@@ -428,44 +567,10 @@ func main() {
 		pool <- newWorker(defs)
 	}
 
-	// ---- trace IDs: 32 hex digits (OTLP needs bytes), owned by node A; two of them with different
-	// deterministic-sampler outcomes at rate 2 (found by asking the real sampler through the real path).
-	w0 := <-pool
-	var traceIDs []string
-	{
-		var kept, dropped string
-		detIdx := -1
-		for i, s := range defs {
-			if s.Class == "deterministic" {
-				detIdx = i
-				break
-			}
-		}
-		for i := 1; i < 4096 && (kept == "" || dropped == ""); i++ {
-			id := fmt.Sprintf("%032x", uint64(i)*0x9e3779b97f4a7c15)
-			if !w0.a.OwnedBySelf(id) || w0.b.OwnedBySelf(id) {
-				continue
-			}
-			o, prob := w0.run(defs[detIdx], id, presentation{Vals: []int{0}, Arrival: []int{0}, Encs: []enc{canonical}})
-			if prob != "" {
-				ev.Harness("probing trace IDs: %s", prob)
-			}
-			if o.Keep && kept == "" {
-				kept = id
-			} else if !o.Keep && dropped == "" {
-				dropped = id
-			}
-		}
-		if kept == "" || dropped == "" {
-			ev.Harness("no kept+dropped pair of self-owned hex trace IDs found")
-		}
-		traceIDs = []string{kept, dropped}
-	}
-	pool <- w0
-
-	// ---- logical traces and their presentations
-	maxSpans := 3
-	k3vals := ev.Pick(r, []int{0, 2, 4}, []int{0, 1, 2, 3, 4, 5}) // quick: 3-span traces over {200, 1.5, "x"}
+	// ---- logical traces
+	// quick: 3-span traces over {200, "x"} and 2-span traces with the small (level 3) encoding lists
+	k3vals := ev.Pick(r, []int{0, 4}, []int{0, 1, 2, 3, 4, 5})
+	level := map[int]int{1: 1, 2: ev.Pick(r, 3, 2), 3: 3}
 	var traces [][]int
 	for a := range values {
 		traces = append(traces, []int{a})
@@ -482,84 +587,38 @@ func main() {
 			}
 		}
 	}
+	// ---- presentations: ordinal b of trace t = (arrival permutation, per-span encoding), encodings fastest;
+	// b = 0 is the canonical presentation (identity order, every span JSON batch).
 	perms := map[int][][]int{1: enumx.Perms(1), 2: enumx.Perms(2), 3: enumx.Perms(3)}
-	encLists := map[[2]int][]enc{} // (value, level)
-	for vi, v := range values {
-		for lvl := 1; lvl <= maxSpans; lvl++ {
-			encLists[[2]int{vi, lvl}] = encodings(v, lvl)
-		}
-	}
-	var cases []caseT
+	encLists := make([][][]enc, len(traces))
+	nPres := make([]int, len(traces))
+	maxPres, totalPres := 0, 0
 	for ti, tr := range traces {
-		k := len(tr)
-		lists := make([][]enc, k)
-		dims := make([]int, k)
-		for i, vi := range tr {
-			lists[i] = encLists[[2]int{vi, k}]
-			dims[i] = len(lists[i])
-		}
-		for pi := range perms[k] {
-			idx := make([]int, k)
-			for {
-				c := caseT{trace: ti, arrival: pi}
-				for i := range idx {
-					c.encs[i] = uint8(idx[i])
-				}
-				cases = append(cases, c)
-				d := k - 1
-				for d >= 0 {
-					idx[d]++
-					if idx[d] < dims[d] {
-						break
-					}
-					idx[d] = 0
-					d--
-				}
-				if d < 0 {
-					break
-				}
+		n := len(perms[len(tr)])
+		for _, vi := range tr {
+			l := encodings(values[vi], level[len(tr)])
+			if l[0] != canonical {
+				ev.Harness("encoding list must start with the canonical encoding")
 			}
+			encLists[ti] = append(encLists[ti], l)
+			n *= len(l)
+		}
+		nPres[ti] = n
+		totalPres += n
+		if n > maxPres {
+			maxPres = n
 		}
 	}
-	present := func(c caseT) presentation {
-		tr := traces[c.trace]
-		p := presentation{Vals: tr, Arrival: perms[len(tr)][c.arrival], Encs: make([]enc, len(tr))}
-		for i, vi := range tr {
-			p.Encs[i] = encLists[[2]int{vi, len(tr)}][c.encs[i]]
+	present := func(ti, b int) presentation {
+		tr := traces[ti]
+		p := presentation{Vals: tr, Encs: make([]enc, len(tr))}
+		for i := len(tr) - 1; i >= 0; i-- {
+			l := encLists[ti][i]
+			p.Encs[i] = l[b%len(l)]
+			b /= len(l)
 		}
+		p.Arrival = perms[len(tr)][b]
 		return p
-	}
-	canonicalOf := func(tr []int) presentation {
-		p := presentation{Vals: tr, Arrival: perms[len(tr)][0], Encs: make([]enc, len(tr))}
-		for i := range tr {
-			p.Encs[i] = canonical
-		}
-		return p
-	}
-
-	// ---- reference answers: canonical presentation, computed once per (trace, sampler)
-	type refKey struct{ trace, sampler int }
-	var refs sync.Map
-	reference := func(w *worker, ti, si int) (outcome, string) {
-		if v, ok := refs.Load(refKey{ti, si}); ok {
-			return v.(outcome), ""
-		}
-		o, prob := w.run(defs[si], traceIDs[defs[si].TraceID], canonicalOf(traces[ti]))
-		if prob == "" {
-			refs.Store(refKey{ti, si}, o)
-		}
-		return o, prob
-	}
-
-	var mu sync.Mutex
-	viol := map[string]found{}
-	harness := ""
-	report := func(sig string, order int64, what string, rep any) {
-		mu.Lock()
-		if f, ok := viol[sig]; !ok || order < f.order {
-			viol[sig] = found{order, what, rep}
-		}
-		mu.Unlock()
 	}
 	describe := func(p presentation) map[string]any {
 		vs := make([]string, len(p.Vals))
@@ -570,145 +629,279 @@ func main() {
 		}
 		return map[string]any{"span_values(root first)": vs, "arrival_order": p.Arrival, "encodings": es}
 	}
+	// ---- trace IDs. Each logical trace gets a small pool of IDs (32 hex digits: OTLP needs 16 bytes, and no 8
+	// leading zero bytes or husky shortens it; owned by node A according to the real sharder of both
+	// nodes). Presentation b of trace t always uses ID (b mod pool size), and one collector instance (job j)
+	// receives the presentations [j*pool, (j+1)*pool) of every trace: all IDs inside a job are distinct,
+	// and a presentation is compared with the canonical presentation sent under THE SAME ID.
+	jobsPerSampler := ev.Pick(r, 12, 24)
+	poolSize := make([]int, len(traces))
+	traceIDs := make([][]string, len(traces))
+	w0 := <-pool
+	next := uint64(1)
+	maxItems := 0
+	for ti := range traces {
+		poolSize[ti] = (nPres[ti] + jobsPerSampler - 1) / jobsPerSampler
+		maxItems += poolSize[ti]
+		for len(traceIDs[ti]) < poolSize[ti] {
+			id := fmt.Sprintf("%016x%016x", next*0x9e3779b97f4a7c15|1<<63, next*0xc2b2ae3d27d4eb4f)
+			next++
+			if w0.a.OwnedBySelf(id) && !w0.b.OwnedBySelf(id) && w0.b.Owner(id) == addrA {
+				traceIDs[ti] = append(traceIDs[ti], id)
+			}
+			if next > 1<<24 {
+				ev.Harness("no self-owned trace IDs")
+			}
+		}
+	}
+	pool <- w0
+	for i := 0; i < workers; i++ { // the real send() blocks on a full outgoing queue (nobody drains it in handler mode)
+		w := <-pool
+		w.rc.OutgoingCap = maxItems + 8
+		pool <- w
+	}
 
-	dims := []int{len(cases), len(defs)}
-	enumx.Each(r, "presentations", dims, workers, func(idx []int) {
+	// wire bytes per (trace, ID slot, span, encoding index), rendered once
+	wires := make([][][][][]byte, len(traces))
+	for ti, tr := range traces {
+		wires[ti] = make([][][][]byte, poolSize[ti])
+		for slot := range wires[ti] {
+			wires[ti][slot] = make([][][]byte, len(tr))
+			for si := range tr {
+				for _, e := range encLists[ti][si] {
+					p := presentation{Vals: tr, Encs: make([]enc, len(tr))}
+					p.Encs[si] = e
+					wires[ti][slot][si] = append(wires[ti][slot][si], spanWire(item{trace: ti, traceID: traceIDs[ti][slot], p: p}, si))
+				}
+			}
+		}
+	}
+	mkItem := func(ti, b, slot int) item {
+		tr := traces[ti]
+		it := item{trace: ti, slot: slot, b: b, traceID: traceIDs[ti][slot], p: present(ti, b), wire: make([][]byte, len(tr))}
+		x := b
+		for i := len(tr) - 1; i >= 0; i-- {
+			l := encLists[ti][i]
+			it.wire[i] = wires[ti][slot][i][x%len(l)]
+			x /= len(l)
+		}
+		return it
+	}
+	// reference job: the canonical presentation (b = 0) under every ID of every trace
+	refItems := func() []item {
+		var items []item
+		for ti := range traces {
+			for slot := 0; slot < poolSize[ti]; slot++ {
+				items = append(items, mkItem(ti, 0, slot))
+			}
+		}
+		return items
+	}
+	refIndex := make([][]int, len(traces)) // [trace][slot] -> position in the reference job
+	{
+		n := 0
+		for ti := range traces {
+			for slot := 0; slot < poolSize[ti]; slot++ {
+				refIndex[ti] = append(refIndex[ti], n)
+				n++
+			}
+		}
+	}
+	jobItems := func(j int) []item {
+		var items []item
+		for ti := range traces {
+			for b := j * poolSize[ti]; b < (j+1)*poolSize[ti] && b < nPres[ti]; b++ {
+				if b == 0 {
+					continue // the canonical presentation is the reference itself
+				}
+				items = append(items, mkItem(ti, b, b%poolSize[ti]))
+			}
+		}
+		return items
+	}
+
+	var mu sync.Mutex
+	harness := ""
+	fail := func(msg string) {
+		mu.Lock()
+		if harness == "" {
+			harness = msg
+		}
+		mu.Unlock()
+	}
+
+	// ---- phase 1: reference answers (b = 0) per sampler
+	refs := make([][]outcome, len(defs)) // [sampler][position in the reference job]
+	enumx.Each(r, "references", []int{len(defs)}, workers, func(idx []int) {
 		w := <-pool
 		defer func() { pool <- w }()
-		c, si := cases[idx[0]], idx[1]
-		s := defs[si]
-		p := present(c)
-		ref, prob := reference(w, c.trace, si)
-		var got outcome
-		if prob == "" {
-			got, prob = w.run(s, traceIDs[s.TraceID], p)
-		}
+		out, prob := w.runJob(defs[idx[0]], refItems())
 		if prob != "" {
-			mu.Lock()
-			if harness == "" {
-				harness = fmt.Sprintf("%s; sampler=%s case=%s", prob, s.Name, ev.J(describe(p)))
-			}
-			mu.Unlock()
+			fail(fmt.Sprintf("reference job, sampler %s: %s", defs[idx[0]].Name, prob))
 			return
 		}
-		isCanon := c.arrival == 0
-		for _, e := range p.Encs {
-			if e != canonical {
-				isCanon = false
+		refs[idx[0]] = out
+		r.Add("evaluations", int64(len(out)-1))
+		for _, o := range out {
+			r.Distinct("distinct_reference_outcomes", o.String())
+			r.Distinct(fmt.Sprintf("sampler_keep_%v", o.Keep), defs[idx[0]].Name)
+		}
+	})
+	if harness != "" {
+		ev.Harness("span could not be delivered / decided: %s", harness)
+	}
+	// determinism self-check (DESIGN §3): the reference job replayed must give the identical answers
+	{
+		w := <-pool
+		for si := range defs {
+			again, prob := w.runJob(defs[si], refItems())
+			if prob != "" || fmt.Sprint(again) != fmt.Sprint(refs[si]) {
+				ev.Harness("reference job of sampler %s is not reproducible: %s", defs[si].Name, prob)
 			}
 		}
-		if !isCanon {
+		pool <- w
+	}
+
+	// ---- phase 2: every other presentation
+	var fails []failing
+	enumx.Each(r, "presentations", []int{jobsPerSampler, len(defs)}, workers, func(idx []int) {
+		w := <-pool
+		defer func() { pool <- w }()
+		j, si := idx[0], idx[1]
+		s := defs[si]
+		items := jobItems(j)
+		if len(items) == 0 {
+			r.Add("evaluations", -1)
+			return
+		}
+		out, prob := w.runJob(s, items)
+		if prob != "" {
+			fail(fmt.Sprintf("job %d sampler %s: %s", j, s.Name, prob))
+			return
+		}
+		r.Add("evaluations", int64(len(items)-1))
+		for ii, it := range items {
+			ref, got := refs[si][refIndex[it.trace][it.slot]], out[ii]
 			r.Distinct("distinct_nontrivial", s.Name+"|"+ref.String())
-		}
-		r.Distinct("distinct_reference_outcomes", ref.String())
-		r.Distinct(fmt.Sprintf("sampler_keep_%v", ref.Keep), s.Name)
-		for i, e := range p.Encs {
-			r.Distinct("encoding_families_exercised", e.family(values[p.Vals[i]]))
-		}
-		if got == ref {
-			return
-		}
-		// ---- difference: which component, and which single span presentation is responsible?
-		var comps []string
-		if got.Keep != ref.Keep {
-			comps = append(comps, "keep")
-		}
-		if got.Rate != ref.Rate {
-			comps = append(comps, "rate")
-		}
-		if got.Key != ref.Key {
-			comps = append(comps, "key")
-		}
-		if got.Reason != ref.Reason {
-			comps = append(comps, "reason")
-		}
-		culprit := ""
-		min := p
-		canon := canonicalOf(p.Vals)
-		for i := range p.Vals { // single-span substitution into the canonical presentation
-			if p.Encs[i] == canonical {
+			var class []string
+			for i, e := range it.p.Encs {
+				fam := e.family(values[it.p.Vals[i]])
+				r.Distinct("encoding_families_exercised", fam)
+				if e != canonical {
+					class = append(class, values[it.p.Vals[i]].Name+"@"+fam)
+				}
+			}
+			for i, a := range it.p.Arrival {
+				if a != i {
+					class = append(class, "arrival-order")
+					break
+				}
+			}
+			if got == ref {
 				continue
 			}
-			q := canonicalOf(p.Vals)
-			q.Encs[i] = p.Encs[i]
-			o, prob := w.run(s, traceIDs[s.TraceID], q)
-			if prob == "" && o != ref {
-				culprit = fmt.Sprintf("value=%s,encoding=%s", values[p.Vals[i]].Name, p.Encs[i].family(values[p.Vals[i]]))
-				min, got = q, o
-				break
+			sort.Strings(class)
+			var comps []string
+			if got.Keep != ref.Keep {
+				comps = append(comps, "keep")
 			}
-		}
-		if culprit == "" {
-			q := canon
-			q.Arrival = p.Arrival
-			if o, prob := w.run(s, traceIDs[s.TraceID], q); prob == "" && o != ref {
-				culprit = "span-order"
-				min, got = q, o
+			if got.Rate != ref.Rate {
+				comps = append(comps, "rate")
 			}
-		}
-		if culprit == "" {
-			var fs []string
-			for i, e := range p.Encs {
-				fs = append(fs, e.family(values[p.Vals[i]]))
+			if got.Key != ref.Key {
+				comps = append(comps, "key")
 			}
-			sort.Strings(fs)
-			culprit = "combination:" + strings.Join(fs, "+")
+			if got.Reason != ref.Reason {
+				comps = append(comps, "reason")
+			}
+			rep := describe(it.p)
+			rep["sampler"] = s.Name
+			rep["trace_id"] = it.traceID
+			rep["answer_for_this"] = got.String()
+			rep["answer_for_json_batch_in_logical_order"] = ref.String()
+			f := failing{order: int64(it.trace)*int64(maxPres) + int64(it.b), items: class, comps: strings.Join(comps, ","), sampler: si, rep: rep,
+				what: fmt.Sprintf("sampler %s answers {%s} for the logical trace %v presented as %v (arrival %v) but {%s} for the same trace sent as JSON batch in logical order",
+					s.Name, got, rep["span_values(root first)"], rep["encodings"], it.p.Arrival, ref)}
+			mu.Lock()
+			fails = append(fails, f)
+			mu.Unlock()
 		}
-		sig := fmt.Sprintf("decision-differs(%s)|sampler=%s|%s", strings.Join(comps, ","), s.Name, culprit)
-		rep := describe(min)
-		rep["sampler"] = s.Name
-		rep["trace_id"] = traceIDs[s.TraceID]
-		rep["canonical_presentation"] = describe(canon)
-		rep["answer_for_canonical"] = ref.String()
-		rep["answer_for_this"] = got.String()
-		report(sig, int64(idx[0])*int64(len(defs))+int64(si),
-			fmt.Sprintf("sampler %s answers {%s} for the logical trace %v presented as %v (arrival %v) but {%s} for the same trace sent as JSON batch in logical order",
-				s.Name, got, rep["span_values(root first)"], rep["encodings"], min.Arrival, ref), rep)
 	})
+	pprof.StopCPUProfile()
 	for i := 0; i < workers; i++ {
 		(<-pool).close()
 	}
 	if harness != "" {
 		ev.Harness("span could not be delivered / decided: %s", harness)
 	}
-	sigs := make([]string, 0, len(viol))
-	for s := range viol {
-		sigs = append(sigs, s)
+
+	// ---- classification: a failing case belongs to the class (sampler, differing components, multiset of
+	// non-canonical span presentations [+ arrival order]). Only MINIMAL classes are reported (no strict
+	// sub-multiset of the class fails for the same sampler and components): the enumeration is exhaustive,
+	// so the sub-presentations were all tried; larger classes add no information. Every failing case counts.
+	type ck struct {
+		sampler int
+		comps   string
+		items   string
 	}
-	sort.Strings(sigs)
-	for _, s := range sigs {
-		r.Violation(s, viol[s].what, viol[s].rep)
+	best := map[ck]failing{}
+	for _, f := range fails {
+		k := ck{f.sampler, f.comps, strings.Join(f.items, " + ")}
+		if g, ok := best[k]; !ok || f.order < g.order {
+			best[k] = f
+		}
 	}
+	var reported []string
+	repBy := map[string]failing{}
+	for k, f := range best {
+		minimal := true
+		n := len(f.items)
+		for m := 1; m < 1<<n-1 && minimal; m++ { // proper non-empty sub-multisets
+			var sub []string
+			for i := 0; i < n; i++ {
+				if m&(1<<i) != 0 {
+					sub = append(sub, f.items[i])
+				}
+			}
+			if _, ok := best[ck{k.sampler, k.comps, strings.Join(sub, " + ")}]; ok {
+				minimal = false
+			}
+		}
+		if minimal {
+			sig := fmt.Sprintf("decision-differs(%s)|sampler=%s|%s", k.comps, defs[k.sampler].Name, k.items)
+			reported = append(reported, sig)
+			repBy[sig] = f
+		}
+	}
+	sort.Strings(reported)
+	for _, sig := range reported {
+		r.Violation(sig, repBy[sig].what, repBy[sig].rep)
+	}
+	r.Set("violating_cases", len(fails))
+	r.Set("violating_classes", len(best))
+	r.Set("violating_classes_minimal(reported)", len(reported))
 
 	// vacuity guards
-	both := 0
-	for _, s := range defs {
-		_ = s
-	}
-	both = minInt(r.NDistinct("sampler_keep_true"), r.NDistinct("sampler_keep_false"))
 	r.Set("samplers", len(defs))
-	r.Set("samplers_seen_keeping_and_dropping(min)", both)
+	r.Set("samplers_seen_keeping", r.NDistinct("sampler_keep_true"))
+	r.Set("samplers_seen_dropping", r.NDistinct("sampler_keep_false"))
 	r.Set("logical_traces", len(traces))
-	r.Set("presentations", len(cases))
+	r.Set("presentations_per_sampler", totalPres)
+	r.Set("collector_instances(jobs)", (jobsPerSampler+1)*len(defs))
+	r.Set("max_traces_in_one_collector", maxItems)
 	r.Set("rule", "for every logical trace, arrival order, per-span encoding and sampler: (keep, rate, sample key, reason) answered by the real sampler inside the real collector == the answer for the same logical trace sent as JSON batch in logical order")
 	var names []string
 	for _, s := range defs {
 		names = append(names, s.Name)
 	}
 	r.Set("bounds", map[string]any{"values": values, "spans": "1..3 (span 0 root)", "three_span_values": k3vals, "samplers": names,
-		"encodings_level1": fmt.Sprint(encodings(values[0], 1)), "encodings_level2": fmt.Sprint(encodings(values[0], 2)), "encodings_level3": fmt.Sprint(encodings(values[0], 3))})
-	r.Sample(map[string]any{"trace_ids": traceIDs})
+		"encodings_1span(int200)": fmt.Sprint(encodings(values[0], 1)), "encodings_2span(int200)": fmt.Sprint(encodings(values[0], 2)), "encodings_3span(int200)": fmt.Sprint(encodings(values[0], 3)),
+		"encodings_1span(float1.5)": fmt.Sprint(encodings(values[2], 1))})
+	r.Sample(map[string]any{"example_trace_ids": traceIDs[:3]})
 	r.Assume("'numerically equal values': an integer stays an integer on msgpack/OTLP (signedness and width vary), a float stays a float (32/64 bit, only exactly representable values); JSON renders both as a JSON number. An integer is never re-typed as a msgpack float or vice versa")
 	r.Assume("OTLP spans necessarily carry protocol-derived extra fields (name, duration_ms, span.kind …); every sampler configured here reads only field n and the trace ID, so the sampled fields are the same in all presentations")
 	r.Assume("the random keep draw is owned by configuration (rule SampleRate 1 / Drop, dynamic goal rate 1 with 24 h ClearFrequency, deterministic = hash of trace ID); samplers whose keep is a genuine coin flip are outside a deterministic equivalence check")
-	r.Assume("decision observed through the collector's own makeDecision telemetry span (kept, rate, reason, sampler key), cross-checked against the outgoing queue for kept traces; real collector in handler mode (processSpan / send tick / sendTraces bodies called directly)")
+	r.Assume("decision observed through the collector's own makeDecision telemetry span (kept, rate, reason, sampler key), cross-checked against the outgoing queue for kept traces; real collector in handler mode (processSpan / send tick bodies called directly); many logical traces (distinct trace IDs) share one collector instance")
 	r.Assume("forwarded-from-peer: the span is ingested by a second real node that does not own the trace; its real peer DirectTransmission serialises it and the bytes are served to the owner's peer listener")
 	r.Finish()
-}
-
-func minInt(a, b int) int {
-	if a < b {
-		return a
-	}
-	return b
 }
